@@ -31,4 +31,5 @@ mk c02-token-below-examined C02 $S/dataset.go 's|^\t\treturn lastSeen + 1, nil$|
 mk c07-ctx-stale-deleted-lookup C07 $S/store.go 's|datasetDeleted := s.deletedSet()\[currentDatasetID\]|datasetDeleted := s.deletedDatasets[currentDatasetID]|' 'versions-of-deleted-datasets-are-never-candidates'
 mk c07-ctx-stale-deleted-query  C07 $S/store.go '0,/if s.deletedSet()\[datasetID\] || !datasetIncluded {/ s|if s.deletedSet()\[datasetID\] \|\| !datasetIncluded {|if s.deletedDatasets[datasetID] \|\| !datasetIncluded {|' 'GetRelatedAtTime'
 mk c07-ctx-parent-of-parent     C07 $S/store.go '/^func NewContextualStore/,/^}/ s|if store.parent != nil {|if store.parent == nil {|' 'a-contextual-store-filters-with-the-deleted-set-published'
+mk c02-equal-never           C02 $S/entity.go 's|^\tif !(len(prevJson) == len(thisJson)) {$|\tif !(len(prevJson) == len(thisJson)+1) {|' 'identical-content-is-recognised-as-equal'
 git -C /repo worktree remove --force "$wt"
